@@ -1003,7 +1003,14 @@ func illegalCharInjection(run *core.Run, n int) {
 				})
 			}
 		}
-		txt := d.Render(&gen.Layout{R: r, Wild: r.Intn(2) == 0, Comments: false})
+		lay := &gen.Layout{R: r, Wild: r.Intn(2) == 0, Comments: false}
+		if i%40 == 7 {
+			// a comment line longer than the 64 KiB default buffers of line readers, early in the text: what follows it
+			// is still input, and an error in it is still owed
+			lay.Long = 66000 + r.Intn(5000)
+			run.Count("illegal_characters_injected_behind_a_line_over_64KiB", 1)
+		}
+		txt := d.Render(lay)
 		if _, err := transformer.TransformDSLToProto(txt); err != nil {
 			return
 		}
@@ -1011,6 +1018,14 @@ func illegalCharInjection(run *core.Run, n int) {
 		// never right after a blank followed by '#': that would be a comment; the text has no comments, and the
 		// injected characters are not '#'
 		p := r.Intn(len(txt) + 1)
+		if lay.Long > 0 {
+			// behind the long line (it is a comment: a character inside it would be no error)
+			if q := strings.Index(txt, strings.Repeat("x", 60000)); q >= 0 {
+				if e := strings.IndexByte(txt[q:], '\n'); e >= 0 && q+e+1 < len(txt) {
+					p = q + e + 1 + r.Intn(len(txt)-(q+e+1)+1)
+				}
+			}
+		}
 		mut := txt[:p] + ch + txt[p:]
 		m, err := transformer.TransformDSLToProto(mut)
 		run.Eval(1)
